@@ -21,7 +21,7 @@ EXTENDS Integers, Sequences, FiniteSets, TLC, Json, CSV
 
 CONSTANTS MaxSize,     \* Unbounded, or an integer (<= 0 disables the cache)
           Typed,       \* BOOLEAN
-          Pats,        \* which patterns of the table below are used (subset of 1..16)
+          Pats,        \* which patterns of the table below are used (subset of 1..17)
           Insts,       \* {0}: plain function; {1,2}: bound to instances 1 and 2 (methods)
           MaxOps,      \* bound on the history length
           AllowFail,   \* the wrapped function may raise
@@ -57,8 +57,13 @@ Patterns == <<
   Pat(<<>>, <<>>),                           \* 13  f()
   Pat(<<I(2)>>, <<>>),                       \* 14  f(2)
   Pat(<<I(3)>>, <<>>),                       \* 15  f(3)
-  Pat(<<>>, <<KW("a", Fl(1)), KW("b", I(2))>>)   \* 16  f(a=1.0, b=2)
+  Pat(<<>>, <<KW("a", Fl(1)), KW("b", I(2))>>),  \* 16  f(a=1.0, b=2)
+  Pat(<<[t |-> "list", v |-> <<"list", 1>>]>>, <<>>)  \* 17  f([1]): an argument that cannot be hashed
 >>
+
+\* an unhashable argument makes the key construction fail with TypeError -- before anything is counted,
+\* and only if a key is needed at all (a disabled cache never builds one)
+Hashable(p) == p # 17
 
 \* calling through instance i > 0 prepends the instance to the positional arguments
 \* (LRUAsyncBoundCallable.__call__, _lrucache.py:155-156)
@@ -97,6 +102,7 @@ InStore(k) == \E i \in 1..Len(order) : order[i] = k
 \* result, evicting the least recently used entry when full  [_lrucache.py:427-451]
 Call(p, n) ==
   LET k == KeyOf(p, n) IN
+  /\ Hashable(p) \/ ~Enabled
   /\ nops < MaxOps /\ nops' = nops + 1
   /\ IF Enabled /\ InStore(k)
      THEN /\ hits' = hits + 1
@@ -112,11 +118,19 @@ Call(p, n) ==
 
 \* the wrapped function raises: counted as a miss, nothing stored
 CallFail(p, n) ==
+  /\ Hashable(p) \/ ~Enabled
   /\ AllowFail /\ nops < MaxOps /\ nops' = nops + 1
   /\ ~(Enabled /\ InStore(KeyOf(p, n)))      \* a cached pattern does not invoke the function
   /\ misses' = misses + 1
   /\ last' = <<"fail", p, n>>
   /\ UNCHANGED <<order, hits>>
+
+\* f([1]) / cache_discard([1]) on an enabled cache: TypeError, nothing changes
+Unhashable(p, n) ==
+  /\ ~Hashable(p) /\ Enabled
+  /\ nops < MaxOps /\ nops' = nops + 1
+  /\ last' = <<"typeerror", p, n>>
+  /\ UNCHANGED <<order, hits, misses>>
 
 Clear ==
   /\ nops < MaxOps /\ nops' = nops + 1
@@ -125,12 +139,13 @@ Clear ==
 
 \* cache_discard(p) removes exactly the entry of that call pattern
 Discard(p, n) ==
+  /\ Hashable(p)
   /\ nops < MaxOps /\ nops' = nops + 1
   /\ order' = Without(order, KeyOf(p, n))
   /\ last' = <<"discard", p, n>>
   /\ UNCHANGED <<hits, misses>>
 
-Next == (\E p \in Pats, n \in Insts : Call(p, n) \/ CallFail(p, n) \/ Discard(p, n)) \/ Clear
+Next == (\E p \in Pats, n \in Insts : Call(p, n) \/ CallFail(p, n) \/ Discard(p, n) \/ Unhashable(p, n)) \/ Clear
 Spec == Init /\ [][Next]_vars
 
 \* ---- invariants --------------------------------------------------------------
